@@ -30,6 +30,14 @@ import Reduino.GenOb.Ops
   right-hand side (N from the counter the parser threads through the whole script: `Stmt.tmpEnd`, `Prog.numbered`) and then assigns
   the targets from the temporaries (`C.declTemps`, `C.assignTemps`, `C.dropTemps`).  `C01_partial` and `C01_partial_promotion` cover it
   (statements unchanged: `InF`/`InF2`, `tr`/`tr2` and both semantics gained the constructor).
+  Text (W13): `Val.str` / `Ty.string` (the Arduino `String`), string literals of printable ASCII (emitted through
+  `_escape_string_literal`, `Esc.escape`), string-typed names (global `String` declarations, default `""`, assignment, tuple assignment,
+  promotion), conditional expressions over strings, `str(e)` of an int- or string-typed expression (`String(e)`), `+` on two strings
+  (a literal left operand is emitted as `String("…")`; `s += e`), f-strings as the fold of `+` the emitter makes of them, and
+  `mon.write` of a string-typed expression; a serial line (`Ev.write`) now carries
+  the printed TEXT, an int printing in decimal on both sides (`toString`, `Val.text`; bools stay out of `write`).  Python's TypeErrors
+  (`"a" + 1`, `-"a"`, `"a" < 1`, `range("a")`, `sleep("a")`) are `Err.typeError`; `Expr.wt` keeps strings out of conditions, counts,
+  arithmetic and comparisons (the theorems' statements are textually unchanged; the store relation of `expr_preserved` says `Ty.holds`).
   The operator tokens `Render` prints are tied to the transpiler's `_BIN`/`_UN`/`_CMP` tables by the
   obligations of `GenOb/Ops.lean`.
 -/
@@ -111,7 +119,7 @@ theorem break_in_main_loop_rejected (pre body : Stmt) (h : breaksOut body = true
     conversion (the heart of the simulation) -/
 theorem expr_preserved (te : C.TyEnv) (sp sc : Store) (e : Expr) (v : Val)
     (hwt : e.wt te = true)
-    (hrel : ∀ x t, te.lookup x = some t → ∀ pv, sp.get x = some pv → sc.get x = some (C.conv t pv) ∧ (t = .bool → ∃ b, pv = .bool b))
+    (hrel : ∀ x t, te.lookup x = some t → ∀ pv, sp.get x = some pv → sc.get x = some (C.conv t pv) ∧ t.holds pv = true)
     (hpy : Py.eval sp e = .ok v) :
     C.eval te sc e = .ok (C.conv (inferTy te e) v) ∨ C.eval te sc e = .error .overflow ∨ C.eval te sc e = .error .signedDiv :=
   Reduino.Lemmas.C01.expr_sim te sp sc hrel e v hwt hpy
@@ -122,7 +130,7 @@ theorem expr_preserved (te : C.TyEnv) (sp sc : Store) (e : Expr) (v : Val)
 theorem and_or_value_counterexample :
     let p : Prog := { pre := .seq (.assign "x" (.int 0)) (.seq (.assign "y" (.int 5))
                         (.seq (.assign "z" (.or (.var "x") (.var "y"))) (.write (.bin .add (.var "z") (.int 0))))), body := none }
-    Py.run p 0 50 = .ok [.write 5] ∧ (∃ c, tr p = .ok c ∧ C.run c 0 50 = .ok [.write 1]) := by
+    Py.run p 0 50 = .ok [.write "5"] ∧ (∃ c, tr p = .ok c ∧ C.run c 0 50 = .ok [.write "1"]) := by
   intro p
   exact ⟨by rfl, _, rfl, by rfl⟩
 
@@ -130,7 +138,7 @@ theorem and_or_value_counterexample :
 theorem range_limit_counterexample :
     let p : Prog := { pre := .seq (.assign "n" (.int 3)) (.forRange "i" (.var "n")
                         (.seq (.assign "n" (.bin .sub (.var "n") (.int 1))) (.write (.bin .add (.var "i") (.int 0))))), body := none }
-    Py.run p 0 50 = .ok [.write 0, .write 1, .write 2] ∧ (∃ c, tr p = .ok c ∧ C.run c 0 50 = .ok [.write 0, .write 1]) := by
+    Py.run p 0 50 = .ok [.write "0", .write "1", .write "2"] ∧ (∃ c, tr p = .ok c ∧ C.run c 0 50 = .ok [.write "0", .write "1"]) := by
   intro p
   exact ⟨by rfl, _, rfl, by rfl⟩
 
@@ -138,8 +146,8 @@ theorem range_limit_counterexample :
 theorem floor_division_negative_counterexample :
     let p : Prog := { pre := .seq (.assign "x" (.int 7)) (.seq (.assign "y" (.neg (.int 2)))
                         (.write (.bin .fdiv (.var "x") (.var "y")))), body := none }
-    Py.run p 0 50 = .ok [.write (-4)] ∧
-      (∃ c, tr p = .ok c ∧ C.run c 0 50 .raw = .ok [.write (-3)] ∧ C.run c 0 50 = .error .signedDiv) := by
+    Py.run p 0 50 = .ok [.write "-4"] ∧
+      (∃ c, tr p = .ok c ∧ C.run c 0 50 .raw = .ok [.write "-3"] ∧ C.run c 0 50 = .error .signedDiv) := by
   intro p
   exact ⟨by rfl, _, rfl, by rfl, by rfl⟩
 
@@ -147,8 +155,8 @@ theorem floor_division_negative_counterexample :
 theorem modulo_negative_counterexample :
     let p : Prog := { pre := .seq (.assign "x" (.neg (.int 7))) (.seq (.assign "y" (.int 3))
                         (.write (.bin .fmod (.var "x") (.var "y")))), body := none }
-    Py.run p 0 50 = .ok [.write 2] ∧
-      (∃ c, tr p = .ok c ∧ C.run c 0 50 .raw = .ok [.write (-1)] ∧ C.run c 0 50 = .error .signedDiv) := by
+    Py.run p 0 50 = .ok [.write "2"] ∧
+      (∃ c, tr p = .ok c ∧ C.run c 0 50 .raw = .ok [.write "-1"] ∧ C.run c 0 50 = .error .signedDiv) := by
   intro p
   exact ⟨by rfl, _, rfl, by rfl, by rfl⟩
 
@@ -179,7 +187,7 @@ theorem C01_statement_false_by_division : ¬ C01_statement := by
 example :
     let p : Prog := { pre := .seq (.assign "a" (.int 2)) (.assign "f" (.cmp .lt (.int 1) (.int 2))),
                       body := some (.seq (.aug "a" .add (.int 1)) (.ifs (.and (.var "f") (.cmp .gt (.var "a") (.int 3))) (.write (.var "a")) .skip)) }
-    InF p = true ∧ (∃ c, tr p = .ok c) ∧ Py.run p 3 50 = .ok [.write 4, .write 5] := by
+    InF p = true ∧ (∃ c, tr p = .ok c) ∧ Py.run p 3 50 = .ok [.write "4", .write "5"] := by
   intro p
   exact ⟨by decide, ⟨_, rfl⟩, by rfl⟩
 
@@ -188,7 +196,7 @@ example :
     let p : Prog := { pre := .seq (.assign "a" (.neg (.int 7))) (.seq (.assign "f" (.cmp .lt (.int 1) (.int 2)))
                         (.write (.bin .add (.bin .band (.var "f") (.bool true)) (.bin .bor (.var "a") (.int 12))))),
                       body := some (.seq (.aug "a" .bxor (.int 12)) (.write (.bin .band (.var "a") (.int 255)))) }
-    InF p = true ∧ (∃ c, tr p = .ok c) ∧ Py.run p 2 50 = .ok [.write (-2), .write 245, .write 249] := by
+    InF p = true ∧ (∃ c, tr p = .ok c) ∧ Py.run p 2 50 = .ok [.write "-2", .write "245", .write "249"] := by
   intro p
   exact ⟨by decide, ⟨_, rfl⟩, by rfl⟩
 
@@ -199,7 +207,7 @@ example :
                         (.seq (.sleep (.mm .min (.int 30) (.abs (.neg (.int 20)))))
                               (.write (.mm .max (.mm .max (.var "b") (.int 3)) (.var "a"))))),
                       body := some (.seq (.aug "b" .add (.int 7)) (.write (.bin .sub (.abs (.var "b")) (.mm .min (.var "a") (.var "b"))))) }
-    InF p = true ∧ (∃ c, tr p = .ok c) ∧ Py.run p 2 50 = .ok [.delay 20, .write 4, .write 4, .write 1] := by
+    InF p = true ∧ (∃ c, tr p = .ok c) ∧ Py.run p 2 50 = .ok [.delay 20, .write "4", .write "4", .write "1"] := by
   intro p
   exact ⟨by decide, ⟨_, rfl⟩, by rfl⟩
 
@@ -210,8 +218,8 @@ example :
                         (.seq (.sleep (.bin .fmod (.int 47) (.int 10)))
                               (.write (.bin .add (.bin .fmod (.var "a") (.var "k")) (.bin .fdiv (.var "a") (.var "k")))))),
                       body := some (.seq (.aug "a" .fdiv (.int 2)) (.write (.bin .fmod (.bin .mul (.var "a") (.int 7)) (.var "k")))) }
-    InF p = true ∧ (∃ c, tr p = .ok c ∧ C.run c 2 50 = .ok [.delay 7, .write 3, .write 1, .write 2]) ∧
-      Py.run p 2 50 = .ok [.delay 7, .write 3, .write 1, .write 2] := by
+    InF p = true ∧ (∃ c, tr p = .ok c ∧ C.run c 2 50 = .ok [.delay 7, .write "3", .write "1", .write "2"]) ∧
+      Py.run p 2 50 = .ok [.delay 7, .write "3", .write "1", .write "2"] := by
   intro p
   exact ⟨by decide, ⟨_, rfl, by rfl⟩, by rfl⟩
 
@@ -239,7 +247,7 @@ theorem C01_partial_promotion (p : Prog) (c : CProg) (N fuel : Nat) (t : List Ev
 theorem promoted_read_before_assignment :
     let p : Prog := { pre := .seq (.assign "c" (.int 0)) (.seq (.ifs (.cmp .gt (.var "c") (.int 0)) (.assign "x" (.int 5)) .skip)
                         (.write (.bin .add (.var "x") (.int 0)))), body := none }
-    Py.run p 0 50 = .error .nameError ∧ (∃ c, tr2 p = .ok c ∧ C.run c 0 50 = .ok [.write 0]) := by
+    Py.run p 0 50 = .error .nameError ∧ (∃ c, tr2 p = .ok c ∧ C.run c 0 50 = .ok [.write "0"]) := by
   intro p
   let c0 : CProg := {
     globals := [("c", Ty.int, Expr.int 0), ("x", Ty.int, Expr.int 0)]
@@ -260,7 +268,7 @@ example :
                               (.write (.var "s")))),
                       body := some (.seq (.aug "s" .add (.int 1)) (.write (.var "s"))) }
     InF2 p = true ∧ InF p = false ∧ (∃ c, tr2 p = .ok c ∧ c.globals.map (·.1) = ["c", "abe", "zed", "s"]) ∧
-      Py.run p 2 80 = .ok [.write 7, .write 8, .write 9] := by
+      Py.run p 2 80 = .ok [.write "7", .write "8", .write "9"] := by
   intro p
   have h : ∃ c, tr2 p = .ok c ∧ c.globals.map (·.1) = ["c", "abe", "zed", "s"] := by
     simp [p, tr2, tr2Core, Prog.numbered, Stmt.numberedFrom, Stmt.tmpEnd, trTop2, trTop, trChain2, trBody2, trNested, sortDecls, newDecls, addPromoted,
@@ -278,8 +286,8 @@ example :
              (.forRange "i" (.int 2)
                 (.tuple 2 ["a", "b", "f"] [.var "b", .bin .add (.var "a") (.int 1), .cmp .lt (.var "a") (.var "b")]))))),
         body := some (.seq (.tuple 5 ["a", "b"] [.var "b", .bin .add (.var "a") (.var "b")]) (.write (.var "a"))) }
-    InF p = true ∧ Py.run p 3 60 = .ok [.write 2, .write 4, .write 6] ∧
-      (∃ c, tr p = .ok c ∧ C.run c 3 60 = .ok [.write 2, .write 4, .write 6] ∧
+    InF p = true ∧ Py.run p 3 60 = .ok [.write "2", .write "4", .write "6"] ∧
+      (∃ c, tr p = .ok c ∧ C.run c 3 60 = .ok [.write "2", .write "4", .write "6"] ∧
         c.loop.lines = ["int __tmp_assign_5 = b;", "int __tmp_assign_6 = (a + b);", "a = __tmp_assign_5;", "b = __tmp_assign_6;",
           "Serial.println(a);"]) := by
   intro p
@@ -289,9 +297,79 @@ example :
 example :
     let p : Prog := { pre := .seq (.assign "a" (.int 1)) (.seq (.assign "b" (.int 2))
                         (.seq (.tuple 0 ["a", "b"] [.var "b", .var "a"]) (.seq (.write (.var "a")) (.write (.var "b"))))), body := none }
-    InF p = true ∧ Py.run p 0 50 = .ok [.write 2, .write 1] ∧ (∃ c, tr p = .ok c ∧ C.run c 0 50 = .ok [.write 2, .write 1]) := by
+    InF p = true ∧ Py.run p 0 50 = .ok [.write "2", .write "1"] ∧ (∃ c, tr p = .ok c ∧ C.run c 0 50 = .ok [.write "2", .write "1"]) := by
   intro p
   exact ⟨by decide +kernel, by rfl, _, rfl, by rfl⟩
+
+/-- non-vacuity (W13, increment 1): text.  A literal with a character the C++ literal escapes, string-typed names (one a constant
+    global, one assigned at run time from a conditional expression), serial lines carrying a string and an int, and a tuple assignment
+    of strings in the main loop: in the fragment, accepted, and both semantics print the same lines -/
+example :
+    let p : Prog :=
+      { pre := .seq (.assign "s" (.str "a\"b")) (.seq (.assign "n" (.int 3))
+            (.seq (.assign "t" (.ite (.cmp .gt (.var "n") (.int 2)) (.var "s") (.str "lo")))
+            (.seq (.write (.var "t")) (.write (.bin .sub (.int 0) (.var "n")))))),
+        body := some (.seq (.tuple 0 ["s", "t"] [.var "t", .str "x"]) (.write (.var "s"))) }
+    InF p = true ∧ Py.run p 2 50 = .ok [.write "a\"b", .write "-3", .write "a\"b", .write "x"] ∧
+      (∃ c, tr p = .ok c ∧ C.run c 2 50 = .ok [.write "a\"b", .write "-3", .write "a\"b", .write "x"] ∧
+        c.lines.take 4 = ["#include <Arduino.h>", "String s = \"a\\\"b\";", "int n = 3;", "String t = \"\";"] ∧
+        c.loop.lines = ["String __tmp_assign_0 = t;", "String __tmp_assign_1 = \"x\";", "s = __tmp_assign_0;", "t = __tmp_assign_1;",
+          "Serial.println(s);"]) := by
+  intro p
+  exact ⟨by decide +kernel, by rfl, _, rfl, by rfl, by decide +kernel, by decide +kernel⟩
+
+/-- non-vacuity (W13, increment 2): `str(e)` of an int-typed expression and `+` on strings — a literal LEFT operand is emitted as
+    `String("…")`, `s += "!"` becomes `s = (s + "!")`; in the fragment, accepted, same lines on both sides -/
+example :
+    let p : Prog :=
+      { pre := .seq (.assign "n" (.int 4)) (.seq (.assign "s" (.bin .add (.str "n=") (.toStr (.var "n")))) (.write (.var "s"))),
+        body := some (.seq (.aug "s" .add (.str "!")) (.seq (.aug "n" .add (.int 1))
+                  (.write (.bin .add (.bin .add (.var "s") (.toStr (.bin .mul (.var "n") (.int 2)))) (.str ";"))))) }
+    InF p = true ∧ Py.run p 2 50 = .ok [.write "n=4", .write "n=4!10;", .write "n=4!!12;"] ∧
+      (∃ c, tr p = .ok c ∧ C.run c 2 50 = .ok [.write "n=4", .write "n=4!10;", .write "n=4!!12;"] ∧
+        c.setup.lines = ["s = (String(\"n=\") + String(n));", "Serial.println(s);"] ∧
+        c.loop.lines = ["s = (s + \"!\");", "n = (n + 1);", "Serial.println(((s + String((n * 2))) + \";\"));"]) := by
+  intro p
+  exact ⟨by decide +kernel, by rfl, _, rfl, by rfl, by decide +kernel, by decide +kernel⟩
+
+/-- non-vacuity (W13, increment 3): f-strings.  `_to_c_expr` turns a `JoinedStr` with formatted values into the left fold of `+` over
+    its parts, a formatted value `{e}` becoming `String(e)` and the first part, when it is literal text, `String("…")`; an f-string
+    without formatted values is a plain literal.  That fold is an expression of the fragment (`toStr`, `+`, literals): the generator
+    prints `f"n={n} s={s}!"` and sends the model the tree below; T compares the rendered line with the emitted one, S_py the value
+    with CPython's `format(v, "")` -/
+example :
+    let fs : Expr := .bin .add (.bin .add (.bin .add (.bin .add (.str "n=") (.toStr (.var "n"))) (.str " s=")) (.toStr (.var "s"))) (.str "!")
+    let p : Prog := { pre := .seq (.assign "n" (.int 3)) (.seq (.assign "s" (.str "ab")) (.seq (.assign "w" fs) (.write (.var "w")))), body := none }
+    InF p = true ∧ Py.run p 0 50 = .ok [.write "n=3 s=ab!"] ∧
+      (∃ c, tr p = .ok c ∧ C.run c 0 50 = .ok [.write "n=3 s=ab!"] ∧
+        c.setup.lines = ["w = ((((String(\"n=\") + String(n)) + \" s=\") + String(s)) + \"!\");", "Serial.println(w);"]) := by
+  intro fs p
+  exact ⟨by decide +kernel, by rfl, _, rfl, by rfl, by decide +kernel⟩
+
+/-- `("a" if c else "b") + "c"` is emitted as `((c ? "a" : "b") + "c")`, a sum of two `const char*`, which no C++ compiler accepts:
+    outside the fragment (`Expr.binTyOk`); with a `String` on the right it is inside -/
+example :
+    let bad : Prog := { pre := .seq (.assign "n" (.int 1)) (.write (.bin .add (.ite (.cmp .gt (.var "n") (.int 0)) (.str "a") (.str "b")) (.str "c"))),
+                        body := none }
+    let good : Prog := { pre := .seq (.assign "n" (.int 1)) (.write (.bin .add (.ite (.cmp .gt (.var "n") (.int 0)) (.str "a") (.str "b")) (.toStr (.var "n")))),
+                         body := none }
+    InF bad = false ∧ InF good = true ∧ Py.run good 0 50 = .ok [.write "a1"] ∧ (∃ c, tr good = .ok c ∧ C.run c 0 50 = .ok [.write "a1"]) := by
+  intro bad good
+  exact ⟨by decide +kernel, by decide +kernel, by rfl, _, rfl, by rfl⟩
+
+/-- `str()` of a bool is kept out: CPython prints `True`, `String(true)` is `1` -/
+example : InF { pre := .seq (.assign "f" (.bool true)) (.write (.toStr (.var "f"))), body := none } = false := by decide +kernel
+
+/-- Python's TypeErrors are errors of the model: `"a" + 1`; a string in arithmetic position is outside `InF` -/
+example :
+    let p : Prog := { pre := .write (.bin .add (.str "a") (.int 1)), body := none }
+    Py.run p 0 50 = .error .typeError ∧ InF p = false := by
+  intro p
+  exact ⟨by rfl, by decide +kernel⟩
+
+/-- a string is not a condition of the fragment (Python: non-empty; the `String` class converts differently) -/
+example : InF { pre := .seq (.assign "s" (.str "a")) (.ifs (.var "s") (.write (.var "s")) .skip), body := none } = false := by
+  decide +kernel
 
 /-- a program whose stored temporary numbers are not the parser's is not a translation unit of the model -/
 example : tr { pre := .seq (.assign "a" (.int 1)) (.seq (.assign "b" (.int 2)) (.tuple 7 ["a", "b"] [.var "b", .var "a"])), body := none }
